@@ -19,6 +19,7 @@ TRUSTED_BASE = [
     'the return value of the Router\'s own Ack()/Nack() call is not observable and is projected out of the comparison',
     'modelled, not verified: the step granularity of Handler/PoisonConc.v (one step per point where another goroutine could interfere; Go memory model); '
     'PoisonQueue(Retry(h)): C12\'s model Handler/Retry.v is imported as is and evaluated with an environment whose select never takes ctx.Done() (the harness uses a live context and no MaxElapsedTime)',
+    'modelled, not verified: context.WithValue shadowing (Handler/PoisonCtx.v add_handler_ctx), exercised by the c13ctx scenario',
     'testing, not proof: the thorough tier re-runs the scenarios under the Go race detector (state shared between in-flight messages)',
 ]
 ASSUMPTIONS = [
@@ -159,6 +160,35 @@ def run_retry(ctx, res, binary):
     picks = [c for c in good if c['calls'] >= 3 and any(e[0] == 'ppublish' for e in c['trace'])]
     if picks: res.sample(describe_r(picks[0]), limit=5)
 
+def run_ctx(ctx, res, binary):
+    """where the context values come from: Handler/PoisonCtx.v vs Router.addHandlerContext + router_context.go readers"""
+    pid, seed = ctx['pid'], ctx['seed']
+    data, _ = C.run_harness(binary, ['c13ctx'], pid, 'c13ctx_%d.json' % seed)
+    strings = data['strings']
+    def hc(v): return '(HC %s)' % ' '.join(C.coq_N(x) for x in v)
+    def meta(sn): return C.coq_list(['(%s, %s)' % (C.coq_N(k), C.coq_N(v)) for k, v in sn['meta']])
+    terms, cases = [], []
+    for c in data['cases']:
+        res.evaluations += 1
+        res.count('context: %s' % c['desc']['message'])
+        d = dict(c['desc']); d.update(id=c['id'], readers_inside_handler_B=[strings[i] for i in c['seen']],
+                                      published_metadata=None if not c['pub'] else {strings[k]: strings[v] for k, v in c['pub']['meta']}, final=ST[c['final']])
+        if c['final'] != 1 or not c['pub'] or c['before']['meta_nil']:
+            res.violations.append(dict(signature='C13/context/observation', what='a failed message with an accepting poison publisher was not published and acked', case=d))
+            continue
+        res.nontrivial.add(('ctx', c['via'], tuple(c['a']), tuple(c['b'])))
+        terms.append('(K13X %s %s (RV %s) %s %s (Some %s))' % ('(Some %s)' % hc(c['a']) if c['via'] else 'None', hc(c['b']),
+                     ' '.join(C.coq_N(x) for x in c['seen']), C.coq_N(c['reason']), meta(c['before']), meta(c['pub'])))
+        cases.append(d)
+    if terms:
+        r = C.coq_eval(pid, 'xcases_%d' % seed, 'From WM Require Import Base.Prelude Handler.Poison Handler.PoisonCtx Corr.C13Ctx.\n' +
+                       'Definition cases : list c13x_case := %s.\n' % C.coq_list(terms), [('R_mis', 'c13x_mismatches cases'), ('R_vio', 'c13x_violations cases')])
+        for i in r['R_vio']:
+            res.violations.append(dict(signature='C13/context/monitor', what='the published metadata does not name reason/topic/handler/subscriber as the message context says, or touches other keys', case=cases[i]))
+        for i in r['R_mis']:
+            res.mismatches.append(dict(kind='Corr.C13Ctx.c13x_mismatch (Handler/PoisonCtx.v vs Router.addHandlerContext / router_context.go readers)',
+                                       explained_by_violation=i in r['R_vio'], case=cases[i]))
+
 def run(ctx):
     pid, tier, seed = ctx['pid'], ctx['tier'], ctx['seed']
     res = C.Result()
@@ -222,6 +252,7 @@ def run(ctx):
             res.mismatches.append(dict(kind='Corr.C13.c13_mismatch (Handler/Poison.v poison/in_router vs middleware/poison.go inside message.Router)',
                                        explained_by_violation=i in r['R_vio'], case=describe(chunk[i], strings)))
     run_retry(ctx, res, binary)
+    run_ctx(ctx, res, binary)
     # the constructors
     terms = ['c13_ctor_mismatch %s %s %s' % (C.coq_N(k['topic']), C.coq_bool(k['with_filter']), C.coq_bool(k['got_mw'])) for k in data['ctors']]
     r = C.coq_eval(pid, 'ctors_%d' % seed, HEADER, [('R_ctor', C.coq_list(terms))])
